@@ -23,7 +23,7 @@ from vlib.monitor import Tol, allclose, fmt_exc, maxdiff, numerical_failure
 from vlib.ref import COST_ALIASES, NEEDS_ERRORS, POISSON, pd_info
 
 PROPERTY = "C03"
-TIERS = {"quick": {"shards": 8, "budget_s": 40}, "thorough": {"shards": 16, "budget_s": 600}}
+TIERS = {"quick": {"shards": 8, "budget_s": 60}, "thorough": {"shards": 16, "budget_s": 600}}
 RULE = (
     "fit type (xy/indexed/hist/unbinned) x cost x dynamic_error_algorithm x backend x random word (<=12 ops quick / <=30 thorough) over "
     "add_error, add_matrix_error, disable/enable_error, simple+matrix constraints, set_(all_)parameter_values, fix/release/limit/unlimit, "
@@ -67,9 +67,13 @@ SKIP_PROPS = {"asymmetric_parameter_errors"}  # re-minimises: belongs to C08's a
 POSTFIT = {"parameter_values", "parameter_errors", "cost_function_value", "goodness_of_fit", "model", "y_model", "total_error", "total_cov_mat", "ndf", "did_fit", "chi2_probability", "parameter_names", "data", "x_data", "y_data", "data_size", "has_errors", "has_data_errors", "has_model_errors", "parameter_cov_mat", "parameter_cor_mat", "y_total_error", "x_total_error", "data_error", "y_data_error", "x_data_error"}
 
 
+# functions of the current configuration only (no result of a minimisation enters): compared with a once-configured fit after do_fit as well
+CONFIG_ONLY = {"cost_function_value", "model", "y_model", "total_error", "total_cov_mat", "total_cor_mat", "goodness_of_fit", "ndf", "chi2_probability", "data", "x_data", "y_data", "data_error", "y_data_error", "x_data_error", "model_error", "y_model_error", "x_model_error", "data_cov_mat", "y_data_cov_mat", "model_cov_mat", "y_model_cov_mat", "x_total_error", "y_total_error", "x_total_cov_mat", "y_total_cov_mat", "parameter_values", "has_errors", "has_data_errors", "has_model_errors"}
+
+
 def floors(tier):
     return {
-        "comparisons": {"live-vs-T1": 400, "T1-vs-T2": 150, "reread-unchanged": 100, "no-frozen-node-after-fit": 15},
+        "comparisons": {"live-vs-T1": 400, "T1-vs-T2": 150, "live-vs-T3": 40, "reread-unchanged": 100, "no-frozen-node-after-fit": 15},
         "ops": MUTATORS + ["read"],
         "reach": ["%s:%s" % a for a in ANCHORS],
         "sets": {"observables_read": 50, "mutator_read_bigrams": 100, "fit_configs": 10},
@@ -198,9 +202,19 @@ def gen_case(rng, tier, idx, shard, nshards):
     spec["dea"] = dea
     L = int(rng.integers(5, 13 if tier == "quick" else 31))
     case = {"property": "C03", "spec": spec, "word_seed": int(rng.integers(0, 2**31)), "n_ops": L}
-    if gi < 4 * len(MUTATORS):
-        # stratified: one (fit type x mutator kind) template each: read core observables, mutate, read them again
-        case["template"] = MUTATORS[(gi // 4) % len(MUTATORS)]
+    r, t = gi // (4 * len(MUTATORS)), (gi // 4) % len(MUTATORS)
+    if r < 4:
+        # stratified templates, one per (fit type x mutator kind) and round: read core observables, mutate, read them again.
+        # Odd rounds put a minimisation between the setup and the first reads: whatever do_fit selects or caches (cost node,
+        # frozen nodes, minimiser state) must not survive the mutator.  Backend and algorithm alternate independently of the kind.
+        case["template"] = MUTATORS[t]
+        case["round"] = r
+        spec["minimizer"] = ["iminuit", "scipy"][(t + r // 2) % 2]
+        spec["dea"] = ["nonlinear", "iterative"][(t // 2 + r // 4) % 2]
+        if r % 2 == 1:
+            case["after_fit"] = True
+            if COST_ALIASES.get(spec.get("cost")) in NEEDS_ERRORS or spec.get("cost") == "chi2":
+                case["first_source_uncorrelated"] = bool(rng.random() < 0.7)
     return case
 
 
@@ -303,6 +317,16 @@ def gen_set_data(rng, case, ref):
         y = [float(np.round(v, 5)) for v in y]
         if ftype == "xy":
             ns = {"x": [float(v) for v in ref.x], "y": y}
+            if rng.random() < 0.6:
+                # new support points as well (same number, same sign/order pattern): every node derived from x must follow
+                xn = np.asarray(ref.x, dtype=float) + rng.uniform(0.05, 0.6, size=ref.n)
+                yn = ref.model.f(xn, gen.perturbed_params(rng, ref.model, 0.1))
+                if counts:
+                    yn = rng.poisson(np.clip(np.abs(yn) * 4.0 + 1.0, 0.5, 200.0)).astype(float)
+                else:
+                    yn = yn + rng.normal(size=ref.n) * 0.1 * (np.abs(yn).mean() + 0.1)
+                if np.all(np.isfinite(yn)):
+                    ns = {"x": [float(np.round(v, 4)) for v in xn], "y": [float(np.round(v, 5)) for v in yn]}
         else:
             ns = {"data": y}
     elif ftype == "hist":
@@ -316,7 +340,8 @@ def gen_set_data(rng, case, ref):
         srcs = []
         need = fid in NEEDS_ERRORS
         for k in range(int(rng.integers(1 if need else 0, 3))):
-            op = gen.gen_source(rng, ref.n, ftype, "c%d_%d" % (int(rng.integers(0, 10**6)), k), yscale=float(np.mean(np.abs(ns.get("y") or ns.get("data") or [10.0])) + 0.5), force={"axis": "y", "reference": "data"}, allow_model=False, allow_x=False)
+            on_x = ftype == "xy" and fid in NEEDS_ERRORS and k > 0 and rng.random() < 0.5
+            op = gen.gen_source(rng, ref.n, ftype, "c%d_%d" % (int(rng.integers(0, 10**6)), k), yscale=float(np.mean(np.abs(ns.get("y") or ns.get("data") or [10.0])) + 0.5), force={"axis": "x" if on_x else "y", "reference": "data"}, allow_model=False, allow_x=on_x)
             a = dict(op[1])
             a["kind"] = "simple" if op[0] == "add_error" else "matrix"
             a["axis"] = gen.norm_axis(a.get("axis")) if ftype == "xy" else None
@@ -470,9 +495,14 @@ def run_case(ctx, case):
         elif case.get("template"):
             # [setup source if needed] read x3, (prerequisite mutator), mutator of the template kind, same reads again
             if not tmpl:
-                core = [o for o in CORE_OBS if o in obs_names]
+                core = [o for o in CORE_OBS if o in obs_names] if case.get("round", 0) < 2 else list(obs_names)
                 picks = ["cost_function_value", "get_result_dict()"] + [core[int(i)] for i in rng.choice(len(core), size=4, replace=False) if core[int(i)] not in ("cost_function_value", "get_result_dict()")]
                 pre = {"enable_error": ["add_error", "add_error", "disable_error"], "disable_error": ["add_error", "add_error"], "release_parameter": ["fix_parameter"], "unlimit_parameter": ["limit_parameter"]}.get(case["template"], [])
+                if case.get("after_fit") and case["template"] != "do_fit":
+                    pre = pre + ["do_fit"]
+                if case.get("after_fit"):
+                    # results of the minimiser last, i.e. after reads that may have made the backend compute something
+                    picks = [o for o in picks if o != "parameter_errors"] + ["parameter_errors"]
                 tmpl.extend([("setup", None)] + [("mut", p) for p in pre] + [("read", o) for o in picks] + [("mut", case["template"])] + [("read", o) for o in picks])
             if tpos[0] >= len(tmpl):
                 break
@@ -488,6 +518,8 @@ def run_case(ctx, case):
                 op = make_op(arg, rng, case, live.ref, state, n_do_fit)
                 if op is None:
                     continue
+            if case.get("first_source_uncorrelated") and op[0] == "add_error" and not live.ref.sources:
+                op[1]["corr"] = 0.0  # the fit then runs on an uncorrelated total (kafe2 selects a pointwise cost node for it)
         else:
             if k >= case["n_ops"]:
                 break
@@ -538,6 +570,16 @@ def run_case(ctx, case):
                     compare(ctx, "T1-vs-T2", obs, b, c, t1.fit, False, spec["minimizer"], detail, key=lambda: classify_t2(t1, t2))
                 except Exception:
                     ctx.violation(None, "T2.build.no-exception", dict(detail, traceback=fmt_exc()))
+                    break
+            if has_fit and ok1 and obs in CONFIG_ONLY:
+                # T3: the quantities that are functions of the configuration alone (sources, constraints, data, parameter values)
+                # are those of a fit configured once with the same values — also when a minimisation lies in the history
+                try:
+                    t3 = build_T2(case, live.ref)
+                    c = read_obs(t3.fit, obs)
+                    compare(ctx, "live-vs-T3", obs, a, c, live.fit, False, spec["minimizer"], detail, key=lambda: classify_t2(live, t3))
+                except Exception:
+                    ctx.violation(None, "T3.build.no-exception", dict(detail, traceback=fmt_exc()))
                     break
             # reading never changes another quantity: re-read an earlier observable read since the last mutator
             cands = sorted(o for o, (v, mc) in last_read.items() if mc == mut_count and o != obs)
